@@ -21,3 +21,36 @@ package keeper
 //@   ensures #c19-sum: totalAmount >= totalEpochs ==> sum(result, 0, totalEpochs) == totalAmount
 //@   ensures #c19-even: forall j :: 0 <= j && j < len(result) ==> result[j] == totalAmount / totalEpochs || result[j] == totalAmount / totalEpochs + 1
 //@   ensures #c19-underfunded: totalAmount < totalEpochs ==> len(result) == 0
+
+// The accrual formula goes through float64 (math.Pow): it is abstracted as a deterministic function of its arguments and the block time.
+//@ func (k Keeper) CalculationOfRewards
+//@   property C18
+//@   pure
+//@   requires #sane-times: bTime >= 0 && bTime <= pow2(62) && blocktime() >= 0 && blocktime() <= pow2(62)
+//@   ensures #c18-negative-time-rejected: div(blocktime(), pow10(9)) - bTime < 0 ==> result1 != nil
+//@   note blocktime() is in nanoseconds; Unix() truncates to seconds
+
+// Stability-fee accrual on a vault (C18): whole units are booked, the fraction is carried, the accrual clock advances on EVERY accrual,
+// and nothing else of the vault changes.
+//@ func (k Keeper) CalculateVaultInterest
+//@   property C18, C01
+//@   let v0 = k.vault.GetVault(ctx, vaultID).0
+//@   let vf0 = k.vault.GetVault(ctx, vaultID).1
+//@   let ep = k.asset.GetPairsVault(ctx, extendedPairID).0
+//@   let accrues = k.GetAppIDByApp(ctx, appID).1 && k.asset.GetPairsVault(ctx, extendedPairID).1 && ep.StabilityFee != 0 && !ep.IsStableMintVault
+//@   let tr0 = ite(k.GetVaultInterestTracker(ctx, vaultID, appID).1, k.GetVaultInterestTracker(ctx, vaultID, appID).0.InterestAccumulated, 0)
+//@   let bt = ite(blockHeight == 0, div(ep.BlockTime, pow10(9)), vaultBlockTime)
+//@   let interest = k.CalculationOfRewards(ctx, totalDebt, ep.StabilityFee, bt).0
+//@   requires #vault-exists: vf0 && v0.Id == vaultID
+//@   requires #nonneg: tr0 >= 0 && tr0 < ONE
+//@   requires #tracker-keyed: k.GetVaultInterestTracker(ctx, vaultID, appID).1 ==> k.GetVaultInterestTracker(ctx, vaultID, appID).0.VaultId == vaultID && k.GetVaultInterestTracker(ctx, vaultID, appID).0.AppMappingId == appID
+//@   letpost v1 = k.vault.GetVault(ctx, vaultID).0
+//@   letpost tr1 = k.GetVaultInterestTracker(ctx, vaultID, appID).0.InterestAccumulated
+//@   ensures [C18] #c18-no-accrual-no-change: result == nil && !accrues ==> k.vault.GetVault(ctx, vaultID) == old(k.vault.GetVault(ctx, vaultID))
+//@   ensures [C18] #c18-whole-units-booked: result == nil && accrues ==> v1.InterestAccumulated == v0.InterestAccumulated + ite(tr0 + interest >= ONE, trunc(tr0 + interest), 0)
+//@   ensures [C18] #c18-fraction-carried: result == nil && accrues ==> tr1 == tr0 + interest - ONE * ite(tr0 + interest >= ONE, trunc(tr0 + interest), 0)
+//@   ensures [C18] #c18-fraction-below-one: result == nil && accrues && interest >= 0 ==> tr1 >= 0 && tr1 < ONE
+//@   ensures [C18] #c18-clock-advances: result == nil && accrues ==> v1.BlockTime == blocktime() && v1.BlockHeight == height()
+//@   ensures [C01] #c01-principal-untouched: result == nil ==> v1.AmountIn == v0.AmountIn && v1.AmountOut == v0.AmountOut && v1.Owner == v0.Owner && v1.AppId == v0.AppId && v1.ExtendedPairVaultID == v0.ExtendedPairVaultID && v1.ClosingFeeAccumulated == v0.ClosingFeeAccumulated && v1.Id == v0.Id
+//@   ensures [C01] #c01-no-coin-moves: forall a, d :: bal(a, d) == old(bal(a, d))
+//@   ensures [C01] #c01-frame-vaults: forall j :: j != vaultID ==> k.vault.GetVault(ctx, j) == old(k.vault.GetVault(ctx, j))
